@@ -125,7 +125,9 @@ impl Table {
         i
     }
 
-    fn build(doc: &XmlDocument) -> Table {
+    /// The evaluator's view of `doc` in the text view its context is in (shared with the `dom`
+    /// domain, which dumps the table of an EDITED document with it: op `X`).
+    pub fn build(doc: &XmlDocument) -> Table {
         let mut t = Table {
             rows: vec![],
             index: HashMap::new(),
@@ -169,7 +171,9 @@ impl Table {
         }
     }
 
-    fn dump(&self) -> String {
+    /// one word per row: `kind;id;key;parent;children;attrs;nss;name;data` with the id and the key
+    /// of row k printed by the caller (`id_of(node)`, `key_of(k)`)
+    fn rows_with(&self, id_of: &dyn Fn(&XmlNode) -> String, key_of: &dyn Fn(usize) -> String) -> Vec<String> {
         fn l(v: &[usize]) -> String {
             if v.is_empty() {
                 "-".to_string()
@@ -177,14 +181,13 @@ impl Table {
                 v.iter().map(|x| x.to_string()).collect::<Vec<_>>().join(".")
             }
         }
-        let mut out = format!("D {}", self.rows.len());
-        for r in &self.rows {
-            out.push(' ');
-            out.push_str(&format!(
+        let mut out = vec![];
+        for (k, r) in self.rows.iter().enumerate() {
+            out.push(format!(
                 "{};{};{};{};{};{};{};{};{}",
                 kind_of(&r.node),
-                r.node.id(),
-                r.node.order(),
+                id_of(&r.node),
+                key_of(k),
                 r.parent.map(|p| p.to_string()).unwrap_or("-".to_string()),
                 l(&r.children),
                 l(&r.attrs),
@@ -195,6 +198,40 @@ impl Table {
                 Table::name_of(&r.node),
                 Table::data_of(&r.node)
             ));
+        }
+        out
+    }
+
+    fn dump(&self) -> String {
+        let rows = self.rows_with(&|n| n.id().to_string(), &|k| self.rows[k].node.order().to_string());
+        let mut out = format!("D {}", self.rows.len());
+        for r in rows {
+            out.push(' ');
+            out.push_str(&r);
+        }
+        out
+    }
+
+    /// The same rows for a table whose ids and order keys are not comparable with the model's as
+    /// numbers (the `dom` domain: ids are canonicalised by the caller -- handle indices there --
+    /// and a key is printed as its rank among the distinct non-zero keys of the table, 0 staying 0:
+    /// the evaluator only compares keys).  One word: `<n>+<row>+<row>...`.
+    pub fn dump_canonical(&self, id_of: &dyn Fn(&XmlNode) -> String) -> String {
+        let keys: Vec<usize> = self.rows.iter().map(|r| r.node.order()).collect();
+        let mut sorted: Vec<usize> = keys.iter().copied().filter(|k| *k != 0).collect();
+        sorted.sort();
+        sorted.dedup();
+        let rows = self.rows_with(id_of, &|k| {
+            if keys[k] == 0 {
+                "0".to_string()
+            } else {
+                (sorted.binary_search(&keys[k]).unwrap() + 1).to_string()
+            }
+        });
+        let mut out = self.rows.len().to_string();
+        for r in rows {
+            out.push('+');
+            out.push_str(&r);
         }
         out
     }
